@@ -99,7 +99,9 @@ def py_round(x):
 
 def chk_selection(inp):
     rng = numpy.random.default_rng(7)
-    masks = [pupil.circle(5, 12, (1.5, -2)), (rng.random((9, 12)) > 0.4).astype(float), pupil.circle(4, 8), numpy.triu(numpy.ones((10, 10)))]
+    soft = numpy.round(rng.random((12, 12)) * 4) / 4.          # grey (non 0/1) masks: soft-edged pupils, half-transparent vanes
+    half = pupil.circle(4, 8) * 0.5
+    masks = [pupil.circle(5, 12, (1.5, -2)), (rng.random((9, 12)) > 0.4).astype(float), pupil.circle(4, 8), numpy.triu(numpy.ones((10, 10))), soft, half]
     for mask in masks:
         for n in (1, 2, 3, 4):
             if mask.shape[0] < n or mask.shape[1] < n:
@@ -131,8 +133,15 @@ def chk_selection(inp):
 
 def chk_fill(inp):
     rng = numpy.random.default_rng(3)
-    mask = (rng.random((12, 10)) > 0.3).astype(float)
     pos = numpy.array([[0., 0.], [2.5, 3.5], [7.2, 1.4], [8.0, 6.0]])
+    for mask in ((rng.random((12, 10)) > 0.3).astype(float), numpy.round(rng.random((12, 10)) * 4) / 4., numpy.full((12, 10), 0.5)):
+        for sp in (2, 3):
+            got = W.computeFillFactor(mask, pos, sp)
+            want = [mask[py_round(x):py_round(x + sp), py_round(y):py_round(y + sp)].mean() for x, y in pos]
+            if not numpy.allclose(got, want, rtol=0, atol=1e-12):
+                return {"message": "computeFillFactor is not the mean of mask[round(x):round(x+sp), round(y):round(y+sp)] (mask values %s)" % sorted(set(numpy.unique(mask).tolist()))[:5],
+                        "observed": numpy.asarray(got).tolist(), "expected": want}
+    mask = (rng.random((12, 10)) > 0.3).astype(float)
     for sp in (2, 2.5, 3):
         got = W.computeFillFactor(mask, pos, sp)
         want = [mask[py_round(x):py_round(x + sp), py_round(y):py_round(y + sp)].mean() for x, y in pos]
